@@ -150,7 +150,7 @@ CHECKS["C12"] = {"text": "The model's update_pert (forward pass, critical path l
     "everywhere, zero at the CPL-defining tail, and every zero-slack task has a zero-slack predecessor finishing at its start (a critical path). The frontier iteration never runs out of fuel (generic worklist theorem). "
     "Run level: the recurrences hold in every `updated` snapshot of every freshly initialised run (non-negative remaining work is proved as a run invariant, using C02's completeness of check_finished) and after the "
     "update inside initialize. The model is tied to the code by the correspondence on est/eft/lst/lft/critical_path_length at every snapshot; an independent topological CPM oracle searches simulated runs and direct "
-    "sequences of progress updates + update_PERT_data(t).",
+    "sequences of progress updates + update_PERT_data(t). For a dependency declared in the successor's input list only (no mirrored output entry) the code's PERT passes miss the link: recorded finding C12/onesided (known_findings.json, corpus/C12/onesided_link.json); the theorems assume mirrored lists (fs_dag) and are unaffected.",
     "note": COMMON_NOTE,
     "technique": "Coq proof (generic frontier/worklist invariant with rank-based termination, instantiated for the forward and backward pass; Q arithmetic by lra) + model/implementation correspondence of PERT fields + independent CPM oracle"}
 CHECKS["C15"] = {"text": "Proved for every ACYCLIC model (any mix of the four dependency kinds, any resources, rules, absences, components on disjoint trees), every incoming state of a freshly initialised or placement-consistent "
